@@ -68,6 +68,9 @@ func main() {
 			if r.IntN(2) == 0 {
 				c.Churn = r.Uint64() | 1
 			}
+			if r.IntN(2) == 0 {
+				c.Global = append(c.Global, "options")
+			}
 			check(run, c)
 		}
 	})
@@ -186,6 +189,10 @@ func check(run *kit.Run, c route.Case) {
 		run.Count("cases_looked_up_through_an_open_write_txn", 1)
 	}
 	c = full
+	optionsOn := false
+	for _, gopt := range c.Global {
+		optionsOn = optionsOn || gopt == "options"
+	}
 	hasHost := map[string]bool{}
 	for _, rs := range c.Routes {
 		if !strings.HasPrefix(rs.Pattern, "/") {
@@ -257,6 +264,19 @@ func check(run *kit.Run, c route.Case) {
 			}
 			if via != "router" {
 				return // ServeHTTP serves the committed state, not the transaction's
+			}
+			// the automatic OPTIONS reply for the same host and path names the method whose route serves it (the probing
+			// of the methods sees the hostname routes exactly as the request's own lookup does)
+			if got.Pattern != "" && !got.Tsr && optionsOn {
+				oq := q
+				oq.Method = "OPTIONS"
+				so := b.Serve(oq)
+				if so.Seen.Kind == "options" || so.Seen.Kind == "noroute" {
+					run.Count("auto_options_replies_checked", 1)
+					if !strings.Contains(", "+so.Allow+",", ", "+q.Method+",") {
+						run.Violate("options-host|"+id, fmt.Sprintf("%s is served by %s for this host and path, but the automatic OPTIONS reply (handler %q) has Allow=%q\nroutes: %s\nrequest: %s", q.Method, got.Pattern, so.Seen.Kind, so.Allow, c.RoutesString(), q), c)
+					}
+				}
 			}
 			s := b.Serve(q)
 			if got.Pattern != "" && !got.Tsr && (s.Seen.Kind != "route" || s.Seen.Pattern != got.Pattern) {
